@@ -97,10 +97,13 @@ def surveyOfJson (j : Json) : Except String Survey := do
 def strsToJson (l : List Str) : Json := Json.arr (l.map jstr).toArray
 
 def trToJson (t : Tr) : Json :=
-  Json.mkObj [("lang", jstr t.lang), ("default", Json.bool t.isDefault), ("ids", strsToJson t.ids)]
+  Json.mkObj [("lang", jstr t.lang), ("default", Json.bool t.isDefault), ("ids", strsToJson t.ids),
+    ("forms", Json.arr (t.texts.map fun tf => Json.arr (tf.2.map fun o => match o with
+      | some f => jstr f | none => Json.null).toArray).toArray)]
 
 def trOfJson (j : Json) : Except String Tr := do
-  pure { lang := ← getStr j "lang", isDefault := getBoolD j "default" false, ids := ← getStrList j "ids" }
+  let ids ← getStrList j "ids"
+  pure { lang := ← getStr j "lang", isDefault := getBoolD j "default" false, texts := ids.map fun i => (i, []) }
 
 def holdsToJson (o : Obs) : Json :=
   let dangling := o.refs.filter fun r => !(!o.translations.isEmpty && o.translations.all fun t => t.ids.contains r)
@@ -117,7 +120,8 @@ def opsItext (op : String) (j : Json) : Option (Except String Json) :=
       | .ok o =>
         pure (Json.mkObj [("outcome", "ok"), ("translations", Json.arr (o.translations.map trToJson).toArray),
           ("bodyRefs", strsToJson o.bodyRefs), ("bindRefs", strsToJson o.bindRefs), ("itemIds", strsToJson o.itemIds),
-          ("holds", holdsToJson (obsOf x.defaultLanguage o))])
+          ("holds", holdsToJson (obsOf x.defaultLanguage o)),
+          ("guard", Json.mkObj [("wf", Json.bool (wf x)), ("choicesLabeled", Json.bool (choicesLabeled x))])])
   | "itext.holds" => some do
       let ts ← (← getArr j "translations").toList.mapM trOfJson
       let refs ← getStrList j "refs"
